@@ -25,7 +25,10 @@ RULE = (
     "nested block is lowered outside Context::with_condition_domain(s) once a condition was evaluated; the one-condition form is used only "
     "where one condition evaluation reaches it; the list form receives the condition evaluated before the chain and, on every path, the "
     "condition of the current iteration, is one list for the whole chain and is never shrunk or re-initialised. R7 in the instance-port "
-    "lowering an expression is stored as the representative of a callee clock domain only on the edge where its clock_domain != None."
+    "lowering an expression is stored as the representative of a callee clock domain only on the edge where its clock_domain != None; "
+    "whether a connection is checked does not depend on the callee port's direction. R8 in check_assign_clock_domain the writes of "
+    "ClockDomain::Inferred to the destination are reachable also where the destination's domain is not Implicit (a block-local `let`/`var`, "
+    "created with ClockDomain::None, adopts the domain of what it holds instead of staying compatible with everything)."
 )
 
 CRATES = ["veryl_analyzer"]
@@ -368,6 +371,7 @@ def run(world, tier, info, only=None):
     _condition_stack(ck, w)
     _compatible_paths(ck, w)
     _connect_check_independent_of_direction(ck, w)
+    _assign_inference(ck, w)
     # ---------------- R5 must-call table ----------------------------------------------------------------------
     for p, why in sorted(MUST_CALL.items()):
         if p not in w.fns:
@@ -718,6 +722,51 @@ def _connect_check_independent_of_direction(ck, w):
           "the clock-domain check of a connection is not control dependent on the port's kind" if checks and not dep else
           "whether a connection is checked depends on the callee port's kind (branch at line %s): connections of the other kinds (inout, ...) cross "
           "domains unchecked" % sorted(set(dep)))
+
+
+def _assign_inference(ck, w):
+    """R8: a variable without a domain of its own must adopt the domain of what is assigned to it. Module variables are Implicit and
+    become Inferred at their first assignment; the `let` / `var` of an always block is created with ClockDomain::None, which is compatible
+    with everything - if the inference in check_assign_clock_domain is reserved to Implicit destinations, a crossing routed through such
+    a local (`let t = i_a; o_b = t;`) is never seen."""
+    if KA not in w.fns:
+        return
+    sm = w.fns[KA]
+    g = Fn(w.mir(KA))
+    ws = []
+    for bi, si, st in flow.field_writes(g, r"ir::comptime::Comptime$|ir::Comptime$", "clock_domain"):
+        rv = st[2]
+        d = repr(g.describe(rv[1], 4)) if rv[0] == "use" and rv[1][0] != "k" else repr(rv)
+        if re.search(r"ClockDomain', 'Inferred'|'variant': 'Inferred'", d):
+            ws.append((bi, st))
+    ck.ob("R8", "assign/inference-writes", len(ws) >= 2, site(sm), "%d writes of ClockDomain::Inferred (destination and its var_paths entry; counted by hand: 2)" % len(ws))
+    cmps = []
+    for cb, ct in g.calls(r"PartialEq(<.*>)?>?::(ne|eq)$"):
+        if not any(flow.access_path(g, a)[1][-1:] == ("clock_domain",) for a in ct["args"]):
+            continue
+        var = None
+        for a in ct["args"]:
+            pi = _promoted_idx(g, a)
+            pr = w.promoted(KA, pi) if pi is not None else None
+            if pr:
+                var = _promoted_variant(pr)
+        sw = g.blocks[ct["to"]]["t"]
+        if var == "Implicit" and sw["t"] == "sw" and sw["on"][0] != "k" and sw["on"][1][0] == ct["dst"][0] and len(sw["vals"]) == 1 and sw["vals"][0][0] == "0":
+            ne = ct["callee"].endswith("::ne")
+            cmps.append((ct["to"], sw["else"] if ne else sw["vals"][0][1], sw["vals"][0][1] if ne else sw["else"], ct))
+    if not cmps or not ws:
+        ck.ob("R8", "assign/inference-not-only-for-implicit", None if ws else False, site(sm),
+              "no comparison of the destination's clock_domain with ClockDomain::Implicit found: cannot decide where the inference applies")
+        return
+    for k, (swb, differs, same, ct) in enumerate(cmps):
+        r_other = g.reach_from(differs, avoid=[swb])
+        ok = all(bi in r_other for bi, _ in ws)
+        ck.ob("R8", "assign/inference-not-only-for-implicit@%d" % (k + 1), ok, site(sm, ct["l"]),
+              "the destination's domain is inferred also where it is not Implicit (a block local created with ClockDomain::None adopts the "
+              "domain of the clock / of the assigned value)" if ok else
+              "the destination's domain is inferred only where it is ClockDomain::Implicit: a `let` / `var` declared inside an always block "
+              "has ClockDomain::None, keeps it, and None is compatible with every domain - a value of one domain copied into such a local "
+              "and from there to a signal of another domain crosses unreported")
 
 
 def _matches_join(g, b):
